@@ -88,5 +88,185 @@ theorem tucker_refactor_full [CommSemiring α] (T : Ttensor α) (hT : TuckerWF T
     have hjd : j.getD d 0 < T.core.shape.getD d 0 := hjb.getD_lt (by rw [hNc]; exact hdN)
     exact hnew d hd _ _ hid hjd
 
+
+/-- A sample that `reconstruct` can use for mode `d`: a non-empty vector of row indices of the factor,
+or a non-empty mixing matrix with one column per row of the factor. -/
+def SampleOk (T : Ttensor α) (d : Nat) : ReconSample α → Prop
+  | .idx l => l ≠ [] ∧ ∀ a ∈ l, a < (T.factors.getD d []).length
+  | .mat M => 0 < M.m ∧ M.n = (T.factors.getD d []).length
+
+/-- The selection / mixing matrix a sample stands for. -/
+def sampleEntry [Zero α] [One α] : ReconSample α → Nat → Nat → α
+  | .idx l, a, x => if l.getD a 0 = x then 1 else 0
+  | .mat M, a, x => M.rows.get a x
+
+theorem pick_spec {β : Type} (zs : List (β × Nat)) (hnd : (zs.map (·.2)).Nodup) :
+    (∀ k, k ∉ zs.map (·.2) → (zs.reverse.find? (fun p => p.2 == k)).map (·.1) = none) ∧
+    (∀ p ∈ zs, (zs.reverse.find? (fun q => q.2 == p.2)).map (·.1) = some p.1) := by
+  constructor
+  · intro k hk
+    have : zs.reverse.find? (fun p => p.2 == k) = none := by
+      rw [List.find?_eq_none]
+      intro p hp hpk
+      apply hk
+      simp only [beq_iff_eq] at hpk
+      exact List.mem_map.2 ⟨p, List.mem_reverse.1 hp, hpk⟩
+    rw [this]; rfl
+  · intro p hp
+    cases hf : zs.reverse.find? (fun q => q.2 == p.2) with
+    | none =>
+      rw [List.find?_eq_none] at hf
+      exact absurd (by simp) (hf p (List.mem_reverse.2 hp))
+    | some q =>
+      have h1 := List.find?_some hf
+      have h2 := List.mem_reverse.1 (List.mem_of_find?_eq_some hf)
+      simp only [beq_iff_eq] at h1
+      have : q = p := List.inj_on_of_nodup_map hnd h2 hp h1
+      rw [this]; rfl
+
+/-- The factor a usable sample produces (pure form). -/
+def newFac [Add α] [Mul α] [Zero α] (U : Mat α) (c : Nat) : Option (ReconSample α) → Mat α
+  | none => U
+  | some (.idx l) => l.map fun a => U.getD a []
+  | some (.mat M) => M.rows.mulD U M.m M.n c
+
+theorem apply_ok [Add α] [Mul α] [Zero α] (T : Ttensor α) (d : Nat) (s : ReconSample α) (h : SampleOk T d s) :
+    ReconSample.apply (T.factors.getD d []) (T.core.shape.getD d 0) (some s) =
+      .ok (newFac (T.factors.getD d []) (T.core.shape.getD d 0) (some s)) := by
+  cases s with
+  | idx l =>
+    obtain ⟨h1, h2⟩ := h
+    have e1 : l.isEmpty = false := by simpa using h1
+    have e2 : (l.any fun x => decide (x ≥ (T.factors.getD d []).length)) = false := by
+      rw [List.any_eq_false]; intro a ha; have := h2 a ha
+      simp only [ge_iff_le, decide_eq_true_eq, not_le]; exact this
+    simp only [ReconSample.apply, newFac, e1, e2, Bool.false_eq_true, if_false]
+  | mat M =>
+    obtain ⟨h1, h2⟩ := h
+    have e1 : (M.m == 0) = false := by simp; omega
+    have e2 : (M.n == (T.factors.getD d []).length) = true := by simp [h2]
+    simp only [ReconSample.apply, newFac, e1, e2, Bool.false_eq_true, if_false, if_true]
+
+/-- **`ttensor.reconstruct(samples, modes)`** for distinct modes with one usable sample each (index
+vectors with repeats in any order, mixing matrices; modes listed in any order): the result is the
+multi-mode product of the Tucker tensor with the selection / mixing matrices of the samples. -/
+theorem tucker_reconstruct_spec [CommSemiring α] (T : Ttensor α) (hT : TuckerWF T) (hN : 1 ≤ T.factors.length)
+    (hrect : ∀ d, d < T.factors.length → ∀ row ∈ T.factors.getD d [], row.length = T.core.shape.getD d 0)
+    (ss : List (ReconSample α)) (md : List Nat) (hl : ss.length = md.length) (hnd : md.Nodup)
+    (hlt : ∀ d ∈ md, d < T.factors.length) (hok : ∀ p ∈ ss.zip md, SampleOk T p.2 p.1)
+    (S : Nat → Nat → Nat → α) (hS : ∀ p ∈ ss.zip md, ∀ a x, S p.2 a x = sampleEntry p.1 a x) :
+    ∃ D, T.reconstruct (some ss) (some md) = .ok D ∧ D.WF ∧ D.shape.length = T.factors.length ∧
+      ∀ i, InBounds D.shape i → D.get i = Spec.ttm T.den md S i := by
+  set N := T.factors.length with hNd
+  set zs := ss.zip md with hzs
+  have hz2 : zs.map (·.2) = md := List.map_snd_zip (Nat.le_of_eq hl.symm)
+  obtain ⟨pk_none, pk_some⟩ := pick_spec zs (by rw [hz2]; exact hnd)
+  set newf : Nat → Mat α := fun k => newFac (T.factors.getD k []) (T.core.shape.getD k 0)
+    ((zs.reverse.find? (fun p => p.2 == k)).map (·.1)) with hnewf
+  have hkeep : ∀ k, k ∉ md → newf k = T.factors.getD k [] := by
+    intro k hk
+    simp only [hnewf]
+    rw [pk_none k (by rw [hz2]; exact hk)]
+    rfl
+  have hnewp : ∀ p ∈ zs, newf p.2 = newFac (T.factors.getD p.2 []) (T.core.shape.getD p.2 0) (some p.1) := by
+    intro p hp
+    simp only [hnewf]
+    rw [pk_some p hp]
+  have hg1 : (decide (ss.length > 0) && (ss.length != md.length)) = false := by
+    rw [hl]; simp
+  have hg2 : (zs.any fun p => decide (p.2 ≥ N)) = false := by
+    rw [List.any_eq_false]
+    intro p hp
+    have := hlt p.2 (by rw [← hz2]; exact List.mem_map_of_mem hp)
+    simp; omega
+  have hmapM : (List.range N).mapM (T.reconFactor zs) = .ok ((List.range N).map newf) := by
+    apply mapM_ok
+    intro k _
+    unfold Ttensor.reconFactor
+    by_cases hk : k ∈ md
+    · obtain ⟨p, hp, rfl⟩ := List.mem_map.1 (hz2 ▸ hk)
+      simp only [hnewf]
+      rw [pk_some p hp]
+      exact apply_ok T p.2 p.1 (hok p hp)
+    · simp only [hnewf]
+      rw [pk_none k (by rw [hz2]; exact hk)]
+      rfl
+  have hfl : ((List.range N).map newf).length = N := by simp
+  have hget : ∀ k, k < N → ((List.range N).map newf).getD k [] = newf k := fun k hk => getD_map_range _ _ _ _ hk
+  obtain ⟨D, hD, hDs, hDw, hDg⟩ := tucker_refactor_full T hT hN ((List.range N).map newf) hfl md hnd hlt S
+    (by intro d hd hds; rw [hget d hd, hkeep d hds])
+    (by
+      intro d hd
+      obtain ⟨p, hp, rfl⟩ := List.mem_map.1 (hz2 ▸ hd)
+      have hpN := hlt p.2 hd
+      rw [hget p.2 hpN, hnewp p hp]
+      have hokp := hok p hp
+      obtain ⟨s, d⟩ := p
+      cases s with
+      | idx l =>
+        obtain ⟨h1, h2⟩ := hokp
+        obtain ⟨a0, l', rfl⟩ := List.exists_cons_of_ne_nil h1
+        have ha0 : a0 < (T.factors.getD d []).length := h2 a0 (List.mem_cons_self ..)
+        show (((a0 :: l').map fun a => (T.factors.getD d []).getD a []).getD 0 []).length = _
+        simp only [List.map_cons, List.getD_cons_zero]
+        apply hrect d hpN
+        have : (T.factors.getD d []).getD a0 [] = (T.factors.getD d [])[a0] := by
+          rw [List.getD_eq_getElem?_getD, List.getElem?_eq_getElem ha0]; rfl
+        rw [this]
+        exact List.getElem_mem _
+      | mat M =>
+        obtain ⟨h1, _⟩ := hokp
+        show ((M.rows.mulD (T.factors.getD d []) M.m M.n (T.core.shape.getD d 0)).getD 0 []).length = _
+        unfold Mat.mulD
+        rw [getD_map_range _ _ _ _ h1]
+        simp)
+    (by
+      intro d hd a c ha hc
+      obtain ⟨p, hp, rfl⟩ := List.mem_map.1 (hz2 ▸ hd)
+      have hpN := hlt p.2 hd
+      rw [hget p.2 hpN, hnewp p hp] at ha ⊢
+      have hokp := hok p hp
+      have hSp := hS p hp
+      obtain ⟨s, d⟩ := p
+      cases s with
+      | idx l =>
+        obtain ⟨_, h2⟩ := hokp
+        have ha' : a < l.length := by simpa [newFac] using ha
+        have hla : l.getD a 0 < (T.factors.getD d []).length := by
+          apply h2
+          rw [List.getD_eq_getElem?_getD, List.getElem?_eq_getElem ha']
+          exact List.getElem_mem _
+        have hlhs : Mat.get (newFac (T.factors.getD d []) (T.core.shape.getD d 0) (some (.idx l))) a c =
+            (T.factors.getD d []).get (l.getD a 0) c := by
+          unfold Mat.get newFac
+          simp [List.getD_eq_getElem?_getD, List.getElem?_map, List.getElem?_eq_getElem ha']
+        rw [hlhs]
+        unfold sumRange
+        have := sum_single' (List.range (T.shape.getD d 0)) List.nodup_range (l.getD a 0)
+          (fun x => (T.factors.getD d []).get x c) (List.mem_range.2 (by rw [tshape_getD]; exact hla))
+        rw [← this]
+        apply sum_congr
+        intro x _
+        rw [hSp a x]
+        simp only [sampleEntry]
+        by_cases hx : l.getD a 0 = x
+        · rw [if_pos hx, if_pos hx.symm, mul_one]
+        · rw [if_neg hx, if_neg (fun h => hx h.symm), mul_zero]
+      | mat M =>
+        obtain ⟨_, h2⟩ := hokp
+        have ham : a < M.m := by simpa [newFac, Mat.mulD] using ha
+        show Mat.get (M.rows.mulD (T.factors.getD d []) M.m M.n (T.core.shape.getD d 0)) a c = _
+        have h2' : M.n = (T.factors.getD d []).length := h2
+        rw [mulD_get _ _ _ _ _ _ _ ham hc, h2', tshape_getD]
+        apply sumRange_congr
+        intro x _
+        rw [hSp a x]
+        simp only [sampleEntry]
+        exact mul_comm _ _)
+  refine ⟨D, ?_, hDw, by rw [hDs]; simp, hDg⟩
+  unfold Ttensor.reconstruct
+  simp only [Option.getD_some, ← hNd, ← hzs, hg1, hg2, Bool.false_eq_true, if_false, hmapM]
+  exact hD
+
 end MLK
 end Pyttb
